@@ -62,7 +62,7 @@ def parts():
     return [core.Part('server', 'harness.scen_server', 'server', 400, 8000, 'DriverServer', sv.coq_server_case,
                       oracle, nontrivial, shard=150,
                       describe=lambda r: {k: r.get(k) for k in ('cfg', 'strategy', 'verdict', 'outcome', 'outcomes', 'backlog_max', 'final_backlog', 'events')}),
-            __import__('harness.scen_backlog', fromlist=['part']).part(24, 300)]
+            __import__('harness.scen_backlog', fromlist=['part']).part(24, 300, report_slot_leak=True)]
 
 
 def check(tier, seed, replay=None):
